@@ -302,12 +302,34 @@ def _case_ondisk(rng, tmp):
     path = os.path.join(tmp, "od.blm")
     if os.path.exists(path):
         os.unlink(path)
-    obj = BloomFilterOnDisk(path, est_elements=est, false_positive_rate=fpr)
+    relative = rng.random() < 0.5
+    cwd = os.getcwd()
+    if relative:
+        # opened through a relative name; the export happens after the working directory has changed,
+        # and a file of the same name exists there
+        os.makedirs(os.path.join(tmp, "elsewhere"), exist_ok=True)
+        with open(os.path.join(tmp, "elsewhere", "od.blm"), "wb") as fh:
+            fh.write(b"not the filter")
+        os.chdir(tmp)
+    try:
+        obj = BloomFilterOnDisk("od.blm" if relative else path, est_elements=est, false_positive_rate=fpr)
+    finally:
+        if relative:
+            os.chdir(os.path.join(tmp, "elsewhere"))
+    try:
+        return _case_ondisk_body(rng, tmp, obj, est, fpr, relative)
+    finally:
+        os.chdir(cwd)
+
+
+def _case_ondisk_body(rng, tmp, obj, est, fpr, relative):
+    from probables import BloomFilter
+
     keys = _keys(rng, rng.randint(0, 20))
     members = keys[: len(keys) * 2 // 3]
     for k in members:
         obj.add(k)
-    desc = f"BloomFilterOnDisk(est={est}, fpr={fpr}) after {len(members)} adds"
+    desc = f"BloomFilterOnDisk(est={est}, fpr={fpr}) after {len(members)} adds" + (", opened by a relative name and used from another working directory" if relative else "")
     probs = []
     out = os.path.join(tmp, "od.copy")
     res = core.call(obj.export, out)
